@@ -134,6 +134,28 @@ def apply(e, keys):
         e["num"] = int(keys["Numb"])
 
 
+def trailing_slash_blocks(res, keyprefix="C08"):
+    """'./' blocks whose Path ends in a slash (as one writes a directory): they are blocks for that directory entry."""
+    tree = pyg.Tree()
+    try:
+        for d_ in ("private", "docs", "open"):
+            tree.write("menu/%s/inner.txt" % d_, b"i\n")
+        tree.write("menu/plain.txt", b"p\n")
+        tree.write("menu/.names", "Path=./private/\nType=X\n\nPath=./docs/\nName=Documents, renamed\nNumb=1\n\nPath=~/open/\nName=Open house\n")
+        cfg = pyg.make_config(tree.root, **{"handlers.dir.DirHandler|cachetime": "0"})
+        r = pyg.request(reqs.build("gopher", "/menu"), cfg)
+        ents = [(e[1], e[2]) for e in parse_gopher(r.out) if e[0] != "i"]
+        res.evaluations += 1
+        res.nontrivial.add(("trailing-slash-blocks",))
+        want = [("Documents, renamed", "/menu/docs"), ("Open house", "/menu/open"), ("plain", "/menu/plain.txt")]
+        if ents != want:
+            res.violation(keyprefix + ":trailing-slash-block", "a './' block whose Path ends in a slash does not act on that directory's entry",
+                          {"link_file": "Path=./private/ Type=X; Path=./docs/ Name=...; Path=~/open/ Name=..."}, observed=ents, required=want,
+                          replay={"trailing_slash_blocks": True})
+    finally:
+        tree.close()
+
+
 def big_link_file(res, keyprefix="C08"):
     """A link file of several hundred blocks (beyond any 20 KiB read-ahead): every block has its effect, the last ones too."""
     tree = pyg.Tree()
@@ -317,6 +339,7 @@ def run(ctx):
         finally:
             tree.close()
     big_link_file(res)
+    trailing_slash_blocks(res)
     outs = ctx.driver.run(model_lines)
     for (inp, impl), o in zip(checks, outs):
         res.evaluations += 1
@@ -332,6 +355,11 @@ def run(ctx):
 
 def replay(data):
     rp = data["violation"]["replay"]
+    if rp.get("trailing_slash_blocks"):
+        r = Result()
+        trailing_slash_blocks(r)
+        print(r.violations)
+        return 0
     if rp.get("big_link_file"):
         r = Result()
         big_link_file(r)
